@@ -31,7 +31,7 @@ type builtState struct {
 func closureStates(run *report.Run, check string, cfg *world.Config) []*builtState {
 	e := &explore.Explorer{Cfg: cfg, Ops: SingleOps(cfg, true), Mon: explore.NopMonitor{}, Reduced: true, KeepHists: true, MaxDepth: cfg.MaxDepth, MaxStates: 200000}
 	if !world.HookAvailable {
-		e.MaxDepth = 3
+		e.MaxDepth = 2
 	}
 	e.Run()
 	if e.HarnessErr != nil {
